@@ -24,7 +24,7 @@ def OpsFinished (s : St) : Prop := s.vigils = 0 ∧ s.pendingB = 0
 
 /-- The full-strength statement. -/
 structure Holds (cfg : Cfg) (handlers : List (String × List Tok)) (ceaseBeforeDestroy : Bool := true)
-    (closeAlwaysCancels : Bool := true) (drainBeforeSwampMu : Bool := true) : Prop where
+    (closeAlwaysCancels : Bool := true) (drainBeforeSwampMu : Bool := true) (autoDestroyRetakes : Bool := true) : Prop where
   /-- `destroy` never waits for the vigil drain while it holds the swamp's write lock `s.mu`: the
       write path holds its vigil across `s.mu.RLock()` (BeginVigil → Save → SaveFunction → RLock),
       so a destroyer that locks first and drains second blocks the operations it waits for -/
@@ -52,12 +52,13 @@ structure Holds (cfg : Cfg) (handlers : List (String × List Tok)) (ceaseBeforeD
       (∀ s, s.cancelled = true → (step cfg s .gReturn).isSome)
   /-- every handler leaves both counters as it found them, whichever statement it leaves after … -/
   balance : ∀ h ∈ handlers, ∀ n c, exitAt h.2 n c = c
-  /-- … also when an auto-destroy fired inside it: the safeops counter is exact and the vigil
-      counter is never left ABOVE its entry value (that would block the drain for ever); it ends
-      one BELOW it per fired auto-destroy, on the instance that was destroyed (the method's own
-      `CeaseVigil` plus the handler's deferred one) -/
-  balanceAutoDestroy : ∀ h ∈ handlers, ∀ n c,
-      (exitAt h.2 n c true).sys = c.sys ∧ (exitAt h.2 n c true).vig = c.vig - ((h.2.take n).count .autoDestroy : Int)
+  /-- … also when an auto-destroy fired inside it.  The swamp methods that destroy an emptied swamp
+      give the CALLER's vigil back before the drain (`s.CeaseVigil(); s.destroyIfEmpty()`); unless they
+      take it again afterwards (`autoDestroyRetakes`), the caller's deferred `CeaseVigil` runs once more
+      and the counter of that instance ends one below its entry value per fired auto-destroy
+      (`defer_balance_autodestroy`): a vigil that belongs to another request is lost, and a drain of
+      that instance no longer waits for it -/
+  balanceAutoDestroy : ∀ h ∈ handlers, ∀ n c, exitAt h.2 n c (!autoDestroyRetakes) = c
 
 theorem reach_inv (as : List Act) (s : St) (h : run good init as = some s) : Inv s :=
   LTS.inv_run (step good) Inv (fun s a s' hi hs => inv_step s a s' hi hs) init as s inv_init h
@@ -98,8 +99,8 @@ theorem graceful_any (cfg : Cfg) :
   · intro s hc; simp [step, hc]
 
 theorem holds_good (handlers : List (String × List Tok))
-    (hp : ∀ h ∈ handlers, Paired h.2 = true) : Holds good handlers true true true := by
-  refine ⟨VigilMu.no_mu_deadlock, by decide, by decide, no_lost_wakeup, ?_, ?_, graceful_any good, ?_, fun h hh n c => defer_balance_autodestroy h.2 (hp h hh) n c⟩
+    (hp : ∀ h ∈ handlers, Paired h.2 = true) : Holds good handlers true true true true := by
+  refine ⟨VigilMu.no_mu_deadlock, by decide, by decide, no_lost_wakeup, ?_, ?_, graceful_any good, ?_, fun h hh n c => defer_balance h.2 (hp h hh) n c⟩
   · intro as s w h ⟨hv, hb⟩ hni hnd
     have hi := reach_inv as s h
     -- nobody is in `checked`/`added` (they would need vigils > 0), nobody is parked or ticketed
@@ -218,6 +219,41 @@ theorem refutes_lockBeforeDrain (cfg : Cfg) (handlers : List (String × List Tok
     simp [hs] at hw
     exact h.noMuDeadlock VigilMu.witness s hs ⟨hw.1, hw.2.1, by omega, hw.2.2.2.1, hw.2.2.2.2⟩
 
+/-! ### Counter leaks found on the extracted handler shapes -/
+
+/-- some statement boundary of the shape at which leaving (early return, or a panic in the code that
+    follows — every handler recovers panics) does not restore the counters -/
+def leakAt (fires : Bool) (h : String × List Tok) : Bool :=
+  (List.range (h.2.length + 1)).any fun n => exitAt h.2 n ⟨0, 0⟩ fires != ⟨0, 0⟩
+
+theorem leak_witness (fires : Bool) (hs : List (String × List Tok)) (h : hs.any (leakAt fires) = true) :
+    ∃ x ∈ hs, ∃ n, exitAt x.2 n ⟨0, 0⟩ fires ≠ ⟨0, 0⟩ := by
+  rw [List.any_eq_true] at h
+  obtain ⟨x, hx, hl⟩ := h
+  unfold leakAt at hl
+  rw [List.any_eq_true] at hl
+  obtain ⟨n, _, hn⟩ := hl
+  exact ⟨x, hx, n, by simpa using hn⟩
+
+/-- a counter statement outside a call+defer pair (`x.BeginVigil(); …; x.CeaseVigil()`): leaving in
+    between keeps the vigil for ever — every later drain of that instance waits for it -/
+theorem refutes_leak (cfg : Cfg) (handlers : List (String × List Tok)) (c cl m r : Bool)
+    (hw : handlers.any (leakAt false) = true) : ¬ Holds cfg handlers c cl m r := by
+  intro h
+  obtain ⟨x, hx, n, hn⟩ := leak_witness false handlers hw
+  exact hn (h.balance x hx n ⟨0, 0⟩)
+
+/-- the auto-destroy sites do not take the caller's vigil again: a handler that reaches one ends with
+    the counter below its entry value (the `-1` of `defer_balance_autodestroy`) -/
+theorem refutes_doubleCease (cfg : Cfg) (handlers : List (String × List Tok)) (c cl m : Bool)
+    (hw : handlers.any (leakAt true) = true) : ¬ Holds cfg handlers c cl m false := by
+  intro h
+  obtain ⟨x, hx, n, hn⟩ := leak_witness true handlers hw
+  exact hn (h.balanceAutoDestroy x hx n ⟨0, 0⟩)
+
+/-- the witness on the shape of `gateway.Delete`'s closure: BeginVigil+defer, DeleteTreasure fires -/
+example : exitAt [.vigPair, .autoDestroy] 2 ⟨0, 0⟩ true = ⟨0, -1⟩ := by decide
+
 /-- `_partial`: what survives the lost wake-up — handler balance and the latch part. -/
 structure HoldsPartial (cfg : Cfg) (handlers : List (String × List Tok)) : Prop where
   graceful : (∀ s w, s.wpc w = .done → ∃ s', step cfg s (.wCancel w) = some s' ∧ s'.cancelled = true) ∧
@@ -255,6 +291,9 @@ structure Facts where
   /-- `destroy`: `s.Vigil.WaitForActiveVigilsClosed()` comes before `s.mu.Lock()` (the swamp mutex the
       write path read-locks while it holds its vigil) -/
   drainBeforeSwampMu : Tri
+  /-- every auto-destroy site takes the caller's vigil again right after the destroy call
+      (`s.CeaseVigil(); s.destroyIfEmpty(); s.BeginVigil()`) -/
+  autoDestroyRetakesVigil : Tri
   /-- every RPC handler (and closure) of the gateway with its counter statements in source order -/
   handlers : List (String × List Tok)
   deriving Repr
@@ -271,7 +310,15 @@ def triBool : Tri → Option Bool
 
 def classify (f : Facts) : Verdict :=
   if !structural f then .undetermined "vigil.go / swamp.go / safeops.go no longer have the modelled shape" else
-  if !allPaired f then .undetermined "a gateway handler changes a counter outside a paired call+defer" else
+  if !allPaired f then
+    (if f.handlers.any (leakAt false) then .violated ["C17-counter-leaks-on-early-exit"]
+     else .undetermined "a gateway handler changes a counter outside a paired call+defer") else
+  match triBool f.autoDestroyRetakesVigil with
+  | none => .undetermined "swamp.autoDestroyRetakesVigil"
+  | some false =>
+    if f.handlers.any (leakAt true) then .violated ["C17-double-cease-after-auto-destroy"]
+    else .undetermined "no handler reaches an auto-destroying swamp method"
+  | some true =>
   match triBool f.drainBeforeSwampMu with
   | none => .undetermined "swamp.drainBeforeSwampMu"
   | some false => .violated ["C17-destroy-locks-swamp-before-drain"]
@@ -289,28 +336,50 @@ def cfgOf (f : Facts) : Cfg :=
 def ceaseOf (f : Facts) : Bool := f.ceasePrecedesDestroy.isYes
 def closeOf (f : Facts) : Bool := f.closeCancels.isYes
 def muOf (f : Facts) : Bool := f.drainBeforeSwampMu.isYes
+def retOf (f : Facts) : Bool := f.autoDestroyRetakesVigil.isYes
+/-- the fragment the `_partial` statement speaks about: the handlers without a finding of their own -/
+def pairedOf (f : Facts) : List (String × List Tok) := f.handlers.filter (fun h => Paired h.2)
+
+theorem paired_filter (f : Facts) : ∀ h ∈ pairedOf f, Paired h.2 = true := by
+  intro h hh
+  exact (List.mem_filter.mp hh).2
 
 theorem classify_sound (f : Facts) :
-    (classify f).Sound (Holds (cfgOf f) f.handlers (ceaseOf f) (closeOf f) (muOf f)) (HoldsPartial (cfgOf f) f.handlers) := by
+    (classify f).Sound (Holds (cfgOf f) f.handlers (ceaseOf f) (closeOf f) (muOf f) (retOf f)) (HoldsPartial (cfgOf f) (pairedOf f)) := by
+  have part := holds_partial (cfgOf f) (pairedOf f) (paired_filter f)
   unfold classify
   split
   · simp [Verdict.Sound]
   · split
-    · simp [Verdict.Sound]
+    · split
+      · rename_i hl
+        exact ⟨refutes_leak _ _ _ _ _ _ hl, part⟩
+      · simp [Verdict.Sound]
     · rename_i hs hp
       have hp' : ∀ h ∈ f.handlers, Paired h.2 = true := by
         simp only [allPaired, Bool.not_eq_true, Bool.not_eq_false'] at hp
         simpa [List.all_eq_true] using hp
-      cases hm : f.drainBeforeSwampMu <;>
-      cases hy : f.closeCancels <;> cases hx : f.ceasePrecedesDestroy <;> cases hd : f.decrementUnderCondLock <;> cases hc : f.checkStrict <;>
-        simp only [triBool, Verdict.Sound, cfgOf, ceaseOf, closeOf, muOf, hm, hy, hx, hd, hc, Tri.isYes] <;>
-        first
-          | trivial
-          | exact ⟨refutes_lockBeforeDrain _ _ _ _, holds_partial _ _ hp'⟩
-          | exact ⟨refutes_closeAborts _ _ _, holds_partial _ _ hp'⟩
-          | exact holds_good f.handlers hp'
-          | exact ⟨refutes_looseCheck _ _ _ _, holds_partial _ _ hp'⟩
-          | exact ⟨refutes_current _ _ _, holds_partial _ _ hp'⟩
-          | exact ⟨refutes_destroyHoldingVigil _ _ _, holds_partial _ _ hp'⟩
+      cases hr : f.autoDestroyRetakesVigil
+      · -- yes
+        simp only [triBool]
+        cases hm : f.drainBeforeSwampMu <;>
+        cases hy : f.closeCancels <;> cases hx : f.ceasePrecedesDestroy <;> cases hd : f.decrementUnderCondLock <;> cases hc : f.checkStrict <;>
+          simp only [triBool, Verdict.Sound, cfgOf, ceaseOf, closeOf, muOf, retOf, hr, hm, hy, hx, hd, hc, Tri.isYes] <;>
+          first
+            | trivial
+            | exact ⟨refutes_lockBeforeDrain _ _ _ _, holds_partial _ _ (paired_filter f)⟩
+            | exact ⟨refutes_closeAborts _ _ _, holds_partial _ _ (paired_filter f)⟩
+            | exact holds_good f.handlers hp'
+            | exact ⟨refutes_looseCheck _ _ _ _, holds_partial _ _ (paired_filter f)⟩
+            | exact ⟨refutes_current _ _ _, holds_partial _ _ (paired_filter f)⟩
+            | exact ⟨refutes_destroyHoldingVigil _ _ _, holds_partial _ _ (paired_filter f)⟩
+      · -- no
+        simp only [triBool]
+        split
+        · rename_i hl
+          simp only [Verdict.Sound, retOf, hr, Tri.isYes]
+          exact ⟨refutes_doubleCease _ _ _ _ _ hl, part⟩
+        · simp [Verdict.Sound]
+      · simp [triBool, Verdict.Sound]
 
 end Hv.C17
